@@ -480,6 +480,11 @@ func parseNestedStatements(stmtToAttachTo *tree.Statement, nestedStmts []string,
 		if leadIdx != -1 {
 			prefix = v[:leadIdx]
 		}
+		// Identify the component (and the property marker) on the prefix without annotation, since the
+		// annotation may itself contain the property marker (e.g., Bdir[ref=1,part=2]{ ... })
+		if strings.Contains(prefix, LEFT_BRACKET) {
+			prefix = prefix[:strings.Index(prefix, LEFT_BRACKET)]
+		}
 
 		// Identify embedded component identifier - parse properties before main components to avoid wrongful mapping
 		if strings.HasPrefix(prefix, tree.ATTRIBUTES_PROPERTY) ||
